@@ -644,8 +644,9 @@ CLAIMED["C02"] = dict(
          "C02Modes strict, C03Joint/C03Tree; the tokenizer-protocol hypothesis Respects2 of C02Modes is PROVED as a fact of "
          "every joint run: lower-case tag names, distinct attribute names, no U+0000 in character tokens, EOF once and last, "
          "the 'text' mode protocol). Remaining hypotheses: the joint run succeeds (totality: C04), noQuirks start, "
-         "drop_doctype off, no shadowrootmode attribute, EmptyOk (ignore_lf clear whenever the EMPTY character token that "
-         "`<![CDATA[]]>` produces arrives - observation recorded in DESIGN; holds on all examples, decidable emptyOkB). "
+         "drop_doctype off, no shadowrootmode attribute (C02_parse_eq_spec_total, Props/C02ParseTotal.lean: the further hypothesis "
+         "EmptyOk of _facts - ignore_lf clear whenever the EMPTY character token that `<![CDATA[]]>` produces arrives - is proved "
+         "as a joint invariant, parse_hist_empty). "
          "NOT proved: C02_table_body_end_ok_partial (parse-error-only table lacks rb/rtc), handle_misnested_a_tags, parse "
          "errors, the self-closing acknowledgement and declarative shadow roots; the per-insertion-mode rule arms (rules.rs) compared with an INDEPENDENT implementation — no complete independent Lean transcription of "
          "section 13.2.6 exists here. That part is carried by (a) the differential against the patched html5lib 1.1 "
